@@ -2086,8 +2086,7 @@ class _Project:
             if fileid in self.asset_dg:
                 self.asset_dg.remove_edges_from(list(self.asset_dg.out_edges(fileid)))
         else:
-            for predecessor in self.asset_dg.predecessors(fileid):
-                self.update(predecessor)
+            self.update_asset(fileid)
 
         with self._backend_lock:
             self.backend.on_delete(fileid, self.build_identifiers)
@@ -2292,6 +2291,12 @@ class _Project:
             )
             for asset in page.static_assets
         )
+        # Files read while parsing (literalinclude and friends) are dependencies too
+        self.asset_dg.add_edges_from(
+            (page.fileid, dependency)
+            for dependency in (page.dependencies.dependencies or {})
+        )
+
         # Report to our backend
         self.pages[page.fake_full_fileid()] = (
             page,
@@ -2303,8 +2308,11 @@ class _Project:
 
     def update_asset(self, fileid: FileId) -> None:
         # Rebuild any pages depending on this asset
+        if fileid not in self.asset_dg:
+            return
+
         for page_id in list(self.asset_dg.predecessors(fileid)):
-            self.update(self.pages[page_id].fileid)
+            self.update(page_id)
 
 
 class Project:
